@@ -78,6 +78,11 @@ type C struct {
 	hookOwner   *C
 	rllMemo     map[string]int
 	viaMemo     map[string]bool
+	fab         map[*ssa.Parameter][]*ssa.Function
+	fabArgOnly  map[*ssa.Function]bool
+	rlgMemo     map[string]int
+	parMemo     map[*ssa.Function]map[string]int
+	parBusy     map[*ssa.Function]bool
 	applyLoopFn *ssa.Function
 	sumMemo     map[string]Set
 	ctxMemo     map[string]bool
